@@ -55,11 +55,25 @@ pub fn generate(ctx: &Ctx, rng: &mut Rng, tier: &str) -> String {
     let limit = if rng.chance(50) { Some(Duration::new("3:00:00")) } else { None };
     let overhead = if rng.chance(50) { Some(Duration::new("0:10:00")) } else { None };
     let nb = RSSchedParallelNeighborhood::new(limit, overhead, ctx.nw.clone());
+    s.push_str(&format!(
+        "T nbparams {} {}\n",
+        limit.map(|d| d.in_sec().unwrap().to_string()).unwrap_or("-".to_string()),
+        overhead.map(|d| d.in_sec().unwrap().to_string()).unwrap_or("-".to_string())
+    ));
     let steps = if tier == "thorough" { rng.range(5, 20) } else { rng.range(2, 6) };
     let max_dump = if tier == "thorough" { 200 } else { 80 };
     let mut base = ScheduleWithInfo::new(base0, SwapInfo::NoSwap, "start".to_string());
     for step in 0..steps {
         s.push_str(&format!("O neighbors {}\n", step));
+        let info = match base.get_last_swap_info() {
+            SwapInfo::SpawnVehicleForMaintenance(v) => format!("spawn {}", crate::ctx::veh_tok(v)),
+            SwapInfo::PathExchange(v) => format!("exchange {}", crate::ctx::veh_tok(v)),
+            SwapInfo::AddTripForHitchHiking(v) => format!("hitch {}", crate::ctx::veh_tok(v)),
+            SwapInfo::RemoveSingleNode(v) => format!("remove {}", crate::ctx::veh_tok(v)),
+            SwapInfo::NoSwap => "none -".to_string(),
+        };
+        s.push_str(&format!("T baseinfo {}\n", info));
+        s.push_str(&ctx.dump_schedule("S", base.get_schedule()).replace("S endsched", "S endbase"));
         let before = ctx.dump_schedule("B", base.get_schedule());
         let res = guarded(|| nb.neighbors_of(&base).collect::<Vec<ScheduleWithInfo>>());
         let after = ctx.dump_schedule("B", base.get_schedule());
